@@ -23,18 +23,18 @@ namespace Fancy
 
 /-! ## Slot arithmetic on `unview sl ++ aux` -/
 
-theorem set_aux (sl : List (Option Nat)) (aux : List Nat) (n j v : Nat) (hn : sl.length = n) (hj : n ≤ j) :
+private theorem set_aux (sl : List (Option Nat)) (aux : List Nat) (n j v : Nat) (hn : sl.length = n) (hj : n ≤ j) :
     (unview sl ++ aux).set j v = unview sl ++ aux.set (j - n) v := by
   rw [List.set_append_right _ _ (by simp only [unview_length]; omega)]
   simp only [unview_length, hn]
 
-theorem get_aux (sl : List (Option Nat)) (aux : List Nat) (n j : Nat) (hn : sl.length = n) (hj : n ≤ j) :
+private theorem get_aux (sl : List (Option Nat)) (aux : List Nat) (n j : Nat) (hn : sl.length = n) (hj : n ≤ j) :
     (unview sl ++ aux)[j]? = aux[j - n]? := by
   rw [List.getElem?_append_right (by simp only [unview_length]; omega)]
   simp only [unview_length, hn]
 
 /-- `dropUntil` skips the branches whose pc is not the target and stops at the marker -/
-theorem dropUntil_append (t : Nat) (S : List SBranch) (mk : SBranch) (X : List SBranch)
+theorem dropUntil_append_marker (t : Nat) (S : List SBranch) (mk : SBranch) (X : List SBranch)
     (hS : ∀ br ∈ S, br.pc ≠ t) (hmk : mk.pc = t) : dropUntil t (S ++ mk :: X) = some X := by
   induction S with
   | nil => simp [dropUntil, hmk]
@@ -43,37 +43,37 @@ theorem dropUntil_append (t : Nat) (S : List SBranch) (mk : SBranch) (X : List S
     simp only [List.cons_append, dropUntil, beq_iff_eq, hb, ↓reduceIte]
     exact ih (fun br hbr => hS br (by simp [hbr]))
 
-theorem drop_to_base (S X : List SBranch) : (S ++ X).drop ((S ++ X).length - X.length) = X := by
+private theorem drop_to_base (S X : List SBranch) : (S ++ X).drop ((S ++ X).length - X.length) = X := by
   have : (S ++ X).length - X.length = S.length := by simp
   rw [this]; exact List.drop_left
 
 /-! ## Passing the failure through -/
 
 /-- trying the results `l` under `succ` hands back whatever failing back yields -/
-@[reducible] def Thru (succ : St → Ans → Ans) (l : List St) : Prop := ∀ acc, l.foldr succ acc = acc
+@[reducible] private def Thru (succ : St → Ans → Ans) (l : List St) : Prop := ∀ acc, l.foldr succ acc = acc
 
-theorem Thru.nil (succ : St → Ans → Ans) : Thru succ [] := fun _ => rfl
+private theorem Thru.nil (succ : St → Ans → Ans) : Thru succ [] := fun _ => rfl
 
-theorem Thru.append {succ : St → Ans → Ans} {l1 l2 : List St} (h1 : Thru succ l1) (h2 : Thru succ l2) :
+private theorem Thru.append {succ : St → Ans → Ans} {l1 l2 : List St} (h1 : Thru succ l1) (h2 : Thru succ l2) :
     Thru succ (l1 ++ l2) := by
   intro acc; rw [List.foldr_append, h2, h1]
 
-theorem Thru.single {succ : St → Ans → Ans} {r : St} (h : ∀ acc, succ r acc = acc) : Thru succ [r] := by
+private theorem Thru.single {succ : St → Ans → Ans} {r : St} (h : ∀ acc, succ r acc = acc) : Thru succ [r] := by
   intro acc; simpa using h acc
 
-theorem Thru.of_single {succ : St → Ans → Ans} {r : St} (h : Thru succ [r]) : ∀ acc, succ r acc = acc := by
+private theorem Thru.of_single {succ : St → Ans → Ans} {r : St} (h : Thru succ [r]) : ∀ acc, succ r acc = acc := by
   intro acc; simpa using h acc
 
-theorem Thru.flatMap {succ : St → Ans → Ans} {g : St → List St} {l : List St}
+private theorem Thru.flatMap {succ : St → Ans → Ans} {g : St → List St} {l : List St}
     (h : Thru (fun r acc => (g r).foldr succ acc) l) : Thru succ (l.flatMap g) := by
   intro acc; rw [foldr_flatMap]; exact h acc
 
-theorem Thru.map {succ : St → Ans → Ans} {f : St → St} {l : List St}
+private theorem Thru.map {succ : St → Ans → Ans} {f : St → St} {l : List St}
     (h : Thru (fun r acc => succ (f r) acc) l) : Thru succ (l.map f) := by
   intro acc; rw [List.foldr_map]; exact h acc
 
 /-- a constant continuation never passes the failure through -/
-theorem not_thru_const (f : St → Ans) (q : St) (qs : List St) : ¬ Thru (fun r _ => f r) (q :: qs) := by
+private theorem not_thru_const (f : St → Ans) (q : St) (qs : List St) : ¬ Thru (fun r _ => f r) (q :: qs) := by
   intro h
   have h1 := h .noMatch
   have h2 := h (.matched [])
@@ -86,7 +86,7 @@ theorem not_thru_const (f : St → Ans) (q : St) (qs : List St) : ¬ Thru (fun r
 section Look
 variable {c : Ctx} {n nS : Nat} {prog : List Insn}
 
-theorem firstOnly_foldr_const (l : List St) (succ : St → Ans → Ans) (failA : Ans) :
+private theorem firstOnly_foldr_const (l : List St) (succ : St → Ans → Ans) (failA : Ans) :
     (firstOnly l).foldr succ failA = l.foldr (fun r _ => succ r failA) failA := by
   cases l with
   | nil => rfl
@@ -189,7 +189,7 @@ theorem sim2_poslook_atomic {slot hi : Nat} {cm : Bool} {sm : St → List St} {a
 
 /-! ## 3. Positive look-around, plain layout -/
 
-theorem SuccOK.comp {cm : Bool} {succ : St → Ans → Ans} (h : SuccOK cm succ) (f : St → St) :
+private theorem SuccOK.comp {cm : Bool} {succ : St → Ans → Ans} (h : SuccOK cm succ) (f : St → St) :
     SuccOK cm (fun r acc => succ (f r) acc) := by
   cases cm with
   | true =>
@@ -235,7 +235,7 @@ theorem sim2_poslook_plain_all {slot hi : Nat} {bal cm : Bool} {sm : St → List
       (hag0.trans' (hag.mono (Nat.le_succ _) (Nat.le_refl _))) hb
       (fun br hbr => by have := hS br hbr; omega) hacc
 
-theorem firstOnly_of_length_le_one (l : List St) (h : l.length ≤ 1) : firstOnly l = l := by
+private theorem firstOnly_of_length_le_one (l : List St) (h : l.length ≤ 1) : firstOnly l = l := by
   match l, h with
   | [], _ => rfl
   | [_], _ => rfl
@@ -288,7 +288,7 @@ theorem sim2_neglook {lo hi : Nat} {bal cm : Bool} {sm : St → List St} {a m : 
         have hstep2 : sstep c prog nS m r.ix (unview r.slots ++ aux') (junk ++ astk)
             (S ++ ⟨m + 1, st.ix, unview st.slots ++ aux, astk⟩ :: X) = some (.fail X) := by
           simp only [sstep, hfail]
-          rw [dropUntil_append (m + 1) S _ X (fun br hbr => by have := hS br hbr; omega) rfl]
+          rw [dropUntil_append_marker (m + 1) S _ X (fun br hbr => by have := hS br hbr; omega) rfl]
         exact Big2.step _ _ _ _ _ _ _ hstep2 hf')
     simpa [hsm] using this
 
@@ -327,7 +327,7 @@ theorem sim2_sem_aheadNeg {lo hi : Nat} {bal cm : Bool} {e : Expr} {a m : Nat}
 /-! ## 6. Look-behind layouts: `GoBack k` first -/
 
 /-- the `GoBack k` leaf (owns no auxiliary slot) -/
-theorem sim2_goBack {lo hi : Nat} {bal cm : Bool} {a k : Nat} (h : prog[a]? = some (.goBack k)) :
+theorem sim2_goBackL {lo hi : Nat} {bal cm : Bool} {a k : Nat} (h : prog[a]? = some (.goBack k)) :
     Sim2 c n nS prog lo hi bal cm (fun st => if k ≤ st.ix then [{ st with ix := st.ix - k }] else []) a (a + 1) := by
   have := Sim2.test1 (c := c) (n := n) (nS := nS) (prog := prog) (lo := lo) (hi := hi) (bal := bal) (cm := cm) (a := a)
     (fun st => decide (k ≤ st.ix)) (fun st => { st with ix := st.ix - k })
@@ -355,7 +355,7 @@ theorem sim2_back {lo hi : Nat} {bal cm : Bool} {body : St → List St} {a m k :
     (hlh : lo ≤ hi) :
     Sim2 c n nS prog lo hi bal cm
       (fun st => (if k ≤ st.ix then [{ st with ix := st.ix - k }] else []).flatMap body) a m :=
-  Sim2.seq (sim2_goBack (lo := lo) (hi := lo) hback) hbody (keepsGood_goBack k) (Nat.le_refl _) hlh
+  Sim2.seq (sim2_goBackL (lo := lo) (hi := lo) hback) hbody (keepsGood_goBack k) (Nat.le_refl _) hlh
     (Nat.le_succ _) ham
 
 /-- `a: BeginAtomic; a+1: Save(slot); a+2: GoBack k; <body> [a+3, m); m: Restore(slot); m+1: EndAtomic` -/
@@ -371,7 +371,7 @@ theorem sim2_posbehind_atomic {slot hi : Nat} {cm : Bool} {body : St → List St
   sim2_poslook_atomic hbegin hsave hrestore hend hn hslot hhi
     (sim2_back hback (hbody.cast rfl rfl) ham hhi) (keepsGood_back k hk)
 
-theorem length_back_le_one {body : St → List St} (k : Nat) (hone : ∀ st, (body st).length ≤ 1) (st : St) :
+private theorem length_back_le_one {body : St → List St} (k : Nat) (hone : ∀ st, (body st).length ≤ 1) (st : St) :
     ((if k ≤ st.ix then [{ st with ix := st.ix - k }] else []).flatMap body).length ≤ 1 := by
   by_cases hk : k ≤ st.ix
   · simpa [hk] using hone _
@@ -408,7 +408,7 @@ end Look
 example (c : Ctx) (cm : Bool) :
     Sim2 c 2 2 [.beginAtomic, .goBack 1, .endAtomic] 2 2 true cm
       (fun st => firstOnly (if 1 ≤ st.ix then [{ st with ix := st.ix - 1 }] else [])) 0 3 :=
-  sim2_atomic (a := 0) (m := 2) rfl rfl (sim2_goBack (a := 1) rfl)
+  sim2_atomic (a := 0) (m := 2) rfl rfl (sim2_goBackL (a := 1) rfl)
 
 example (c : Ctx) (cm : Bool) :
     Sim2 c 2 3 [.beginAtomic, .save 2, .goBack 1, .restore 2, .endAtomic] 2 3 true cm
@@ -416,19 +416,19 @@ example (c : Ctx) (cm : Bool) :
         fun r => { r with ix := st.ix }) 0 5 :=
   sim2_poslook_atomic (n := 2) (nS := 3) (slot := 2) (hi := 3) (a := 0) (m := 3) rfl rfl rfl rfl
     (by omega) (by omega) (by omega)
-    (sim2_goBack (a := 2) rfl) (keepsGood_goBack 1)
+    (sim2_goBackL (a := 2) rfl) (keepsGood_goBack 1)
 
 example (c : Ctx) (cm : Bool) :
     Sim2 c 2 3 [.save 2, .goBack 1, .restore 2] 2 3 true cm
       (fun st => (firstOnly (if 1 ≤ st.ix then [{ st with ix := st.ix - 1 }] else [])).map
         fun r => { r with ix := st.ix }) 0 3 :=
   sim2_poslook_plain (n := 2) (nS := 3) (slot := 2) (hi := 3) (a := 0) (m := 2) rfl rfl (by omega) (by omega) (by omega)
-    (sim2_goBack (a := 1) rfl) (keepsGood_goBack 1) (fun st => by by_cases h : 1 ≤ st.ix <;> simp [h])
+    (sim2_goBackL (a := 1) rfl) (keepsGood_goBack 1) (fun st => by by_cases h : 1 ≤ st.ix <;> simp [h])
 
 example (c : Ctx) (cm : Bool) :
     Sim2 c 2 2 [.split 1 3, .goBack 1, .failNegLook] 2 2 true cm
       (fun st => if (if 1 ≤ st.ix then [{ st with ix := st.ix - 1 }] else []).isEmpty then [st] else []) 0 3 :=
-  sim2_neglook (bal := true) (a := 0) (m := 2) rfl rfl (sim2_goBack (a := 1) rfl)
+  sim2_neglook (bal := true) (a := 0) (m := 2) rfl rfl (sim2_goBackL (a := 1) rfl)
 
 example (c : Ctx) (cm : Bool) :
     Sim2 c 2 3 [.beginAtomic, .save 2, .goBack 1, .restore 2, .endAtomic] 2 3 true cm
@@ -449,5 +449,25 @@ example (c : Ctx) (cm : Bool) :
       (fun st => if ((if 1 ≤ st.ix then [{ st with ix := st.ix - 1 }] else []).flatMap fun st => [st]).isEmpty
         then [st] else []) 0 3 :=
   sim2_negbehind (bal := true) (lo := 2) (hi := 2) (a := 0) (m := 2) rfl rfl rfl (by omega) (by omega) (Sim2.nil c 2 2 _ 2 2 true true 2)
+
+example (c : Ctx) (cm : Bool) :
+    Sim2 c 2 2 [.beginAtomic, .endAtomic] 2 2 true cm (sem c (.atomic .empty)) 0 2 :=
+  sim2_sem_atomic (a := 0) (m := 1) rfl rfl ((Sim2.nil c 2 2 _ 2 2 true true 1).congr (fun st => by simp [sem]))
+
+example (c : Ctx) (cm : Bool) :
+    Sim2 c 2 3 [.beginAtomic, .save 2, .restore 2, .endAtomic] 2 3 true cm (sem c (.look .empty .ahead)) 0 4 :=
+  sim2_sem_ahead_atomic (n := 2) (nS := 3) (slot := 2) (hi := 3) (a := 0) (m := 2) rfl rfl rfl rfl
+    (by omega) (by omega) (by omega) ((Sim2.nil c 2 3 _ 3 3 true true 2).congr (fun st => by simp [sem]))
+
+example (c : Ctx) (cm : Bool) :
+    Sim2 c 2 3 [.save 2, .restore 2] 2 3 true cm (sem c (.look .empty .ahead)) 0 2 :=
+  sim2_sem_ahead_plain (n := 2) (nS := 3) (slot := 2) (hi := 3) (a := 0) (m := 1) rfl rfl
+    (by omega) (by omega) (by omega) ((Sim2.nil c 2 3 _ 3 3 true cm 1).congr (fun st => by simp [sem]))
+    (fun st => by simp [sem])
+
+example (c : Ctx) (cm : Bool) :
+    Sim2 c 2 2 [.split 1 2, .failNegLook] 2 2 true cm (sem c (.look .empty .aheadNeg)) 0 2 :=
+  sim2_sem_aheadNeg (bal := true) (a := 0) (m := 1) rfl rfl
+    ((Sim2.nil c 2 2 _ 2 2 true true 1).congr (fun st => by simp [sem]))
 
 end Fancy
